@@ -401,7 +401,7 @@ func (b *BlockList) Exists(key string) bool {
 	// covers subdomains only.
 	offset := 0
 	for {
-		idx := strings.IndexByte(key[offset:], '.')
+		idx := indexLabelDot(key[offset:])
 		if idx == -1 {
 			break
 		}
@@ -418,6 +418,24 @@ func (b *BlockList) Exists(key string) bool {
 	return false
 }
 
+// indexLabelDot returns the index of the first label-separating dot in a
+// presentation-format name, or -1. A dot that is escaped ("\.") is data
+// inside a label, not a label boundary: "q\.example.com." has the labels
+// "q.example" and "com", so its parents are "com." and the root — not
+// "example.com.". A backslash always escapes the next byte ("\DDD" starts
+// with a digit, never a dot), so skipping one byte after it is enough.
+func indexLabelDot(s string) int {
+	for i := 0; i < len(s); i++ {
+		switch s[i] {
+		case '\\':
+			i++
+		case '.':
+			return i
+		}
+	}
+	return -1
+}
+
 // matchHierarchy reports whether name or any of its parent suffixes is a
 // key in m. Names are expected in canonical (lowercase, trailing-dot) form.
 func matchHierarchy(name string, m map[string]bool) bool {
@@ -429,7 +447,7 @@ func matchHierarchy(name string, m map[string]bool) bool {
 	}
 	offset := 0
 	for {
-		idx := strings.IndexByte(name[offset:], '.')
+		idx := indexLabelDot(name[offset:])
 		if idx == -1 {
 			return false
 		}
